@@ -4,6 +4,7 @@ package main
 // decides the property and writes the evidence file.
 
 import (
+	"go/types"
 	"regexp"
 	"os/exec"
 	"crypto/sha256"
@@ -39,6 +40,16 @@ func (c *RunCfg) solverCfg(sub string) *SolverCfg {
 }
 
 func loadOrDie(cfg *RunCfg) *Program {
+	if BaselineLocals == nil {
+		verifDir := cfg.VerifDir
+		if verifDir == "" {
+			verifDir = "/verif"
+		}
+		var b Baseline
+		if readJSON(filepath.Join(verifDir, "baseline_obligations.json"), &b) {
+			BaselineLocals = b.ContractLocals
+		}
+	}
 	prog, err := LoadProgram(cfg.Repo, cfg.Mirror)
 	if err != nil {
 		fmt.Fprintln(os.Stderr, "ENGINE-ERROR:", err)
@@ -46,6 +57,9 @@ func loadOrDie(cfg *RunCfg) *Program {
 	}
 	for _, st := range prog.CS.Stale {
 		fmt.Fprintln(os.Stderr, "STALE-CONTRACT:", st)
+	}
+	for _, rb := range prog.CS.Rebound {
+		fmt.Fprintln(os.Stderr, "REBOUND-CONTRACT:", rb)
 	}
 	if cfg.DumpSynth {
 		d := filepath.Join(cfg.Out, "synth")
@@ -154,6 +168,8 @@ type Baseline struct {
 		Solver string  `json:"solver"`
 		TimeS  float64 `json:"time_s"`
 	} `json:"properties"`
+	// local variables (name -> type) each contract's clauses could see when the baseline was written
+	ContractLocals map[string]map[string]string `json:"contract_locals"`
 }
 
 func readJSON(path string, v interface{}) bool {
@@ -266,7 +282,7 @@ func runAll(cfg *RunCfg, writeBaseline bool) int {
 		if dir == "" {
 			dir = "/verif"
 		}
-		data, _ := json.MarshalIndent(map[string]interface{}{"properties": base}, "", " ")
+		data, _ := json.MarshalIndent(map[string]interface{}{"properties": base, "contract_locals": prog.contractLocals()}, "", " ")
 		os.WriteFile(filepath.Join(dir, "baseline_obligations.json"), data, 0o644)
 		fmt.Println("baseline written")
 	}
@@ -931,3 +947,32 @@ func runConformance(verifDir string) map[string]interface{} {
 var contractDerivedRe = regexp.MustCompile(`#(post#|at#|loop#[0-9]+#inv#|lemma#|iface#.*#post#)`)
 
 func contractDerived(name string) bool { return contractDerivedRe.MatchString(name) }
+
+// contractLocals: for every contract, the local variables (name -> printed type) that were in scope for its
+// loop / in-body clauses. Written into the baseline; used to re-bind a clause when a local was merely renamed.
+func (p *Program) contractLocals() map[string]map[string]string {
+	out := map[string]map[string]string{}
+	for _, sf := range p.SpecFns {
+		if sf.Owner == "" || sf.Decl == nil {
+			continue
+		}
+		pkg := p.Pkgs[sf.Pkg]
+		if pkg == nil {
+			continue
+		}
+		k := 0
+		for _, f := range sf.Decl.Type.Params.List {
+			ts := types.TypeString(pkg.TypesInfo.TypeOf(f.Type), qualifierFor(pkg.Types))
+			for _, n := range f.Names {
+				if k < len(sf.Roles) && strings.HasPrefix(sf.Roles[k], "local:") {
+					if out[sf.Owner] == nil {
+						out[sf.Owner] = map[string]string{}
+					}
+					out[sf.Owner][n.Name] = ts
+				}
+				k++
+			}
+		}
+	}
+	return out
+}
